@@ -46,19 +46,24 @@ def render(g, order=0):
             out.append("import %s%s from %s;" % ("type " if it[0] == "T" else "", it[0], it[1]))
             lines[(m, it[0], it[1])] = len(out)
         imports_x = any(it[0] == "x" for it in imports(g, m))
+        bare = m == "c" and g.get("cbare")
         if m == "main":
             if not imports_x:
                 out.append("let x = 10;")
-        else:
+        elif not bare:
             out.append("%slet x = %d;" % ("pub " if g["x"][m] == "pub" else "", XV[m]))
         if m == "b" and g["t"] != "none":
             out.append("%stype T = int;" % ("pub " if g["t"] == "pub" else ""))
-        out.append("let hist = [0];")
+        if not bare:
+            out.append("let hist = [0];")
         out.append("fn h() { println(\"%s.h\"); }" % m)
         if g["f"][m] != "none":
             out.append("%sfn f() { hist.push(1); println(\"%s.f\", x, hist.len()); h(); }" % ("pub " if g["f"][m] == "pub" else "", m))
         sees_f = visible(g, m, "f")
-        if m in ("b", "c"):
+        if bare:
+            out.append("pub fn pc() { println(\"c.p bare\"); %sh(); }" % ("f(); " if sees_f else ""))
+            out.append("fn main() { }")
+        elif m in ("b", "c"):
             out.append("pub fn p%s() { println(\"%s.p\", x, hist.len()); %sh(); }" % (m, m, "f(); " if sees_f else ""))
             out.append("fn main() { }")
         else:
@@ -82,7 +87,9 @@ def render(g, order=0):
 def expected_text(out):
     ls = []
     for l in out:
-        if l[1] == "h":
+        if l[1] == "pbare":
+            ls.append("c.p bare")
+        elif l[1] == "h":
             ls.append("%s.h" % l[0])
         elif l[1] in ("x", "t"):
             ls.append("main.%s %d" % (l[1], l[2]))
